@@ -80,3 +80,15 @@ st('htp_connp_REQ_BODY_CHUNKED_LENGTH', ['C06', 'C09', 'C03', 'C01'], 'chunk-siz
             'connp->in_stream_offset == __CPROVER_loop_entry(connp->in_stream_offset) + (connp->in_current_read_offset - __CPROVER_loop_entry(connp->in_current_read_offset))',
             '(gk < CHUNK_CAP && (int64_t) gk >= __CPROVER_loop_entry(connp->in_current_read_offset) && (int64_t) gk < connp->in_current_read_offset) ==> connp->in_current_data[gk] != LF'],
        dec='connp->in_current_len - connp->in_current_read_offset')})
+
+LOOP_COPY = lambda extra=(): dict(assigns='connp->in_next_byte, connp->in_current_read_offset, connp->in_stream_offset',
+                        inv=['connp->in_current_read_offset >= __CPROVER_loop_entry(connp->in_current_read_offset)', 'connp->in_current_read_offset <= connp->in_current_len',
+                             'connp->in_stream_offset == __CPROVER_loop_entry(connp->in_stream_offset) + (connp->in_current_read_offset - __CPROVER_loop_entry(connp->in_current_read_offset))'] + list(extra),
+                        dec='connp->in_current_len - connp->in_current_read_offset')
+st('htp_connp_REQ_FINALIZE', ['C06', 'C09', 'C16', 'C01'], 'after a complete request: either the transaction completes without discarding the pending bytes (next request line survives), or the line is unexpected body: delivered once, counted in message length, then discarded; incomplete line => DATA_BUFFER and nothing happens',
+   replace=['htp_connp_req_consolidate_data', 'htp_connp_req_clear_buffer', 'bstr_dup_mem/contract_site_bstr_dup_mem', 'htp_convert_method_to_number',
+            'htp_tx_state_request_complete/contract_stub_htp_tx_state_request_complete', 'htp_tx_req_process_body_data_ex', 'htp_log'],
+   link=['htp_util.c', 'bstr.c'], timeout=(900, 1800), solver='--sat-solver cadical',
+   loops={'count': 3, 0: LOOP_COPY(),
+          1: dict(assigns='pos', inv=['pos <= len'], dec='len - pos'),
+          2: dict(assigns='pos', inv=['pos <= len', 'mstart <= pos'], dec='len - pos')})
